@@ -1,5 +1,5 @@
 /-
-  Bridge (DESIGN.md 4.1b): the GLUE between the library and the CLI as facts — C17 (every command's reader → edit → writer frame): join, length, pick, query, summary, and the pipelines of the six multi-site commands.
+  Bridge (DESIGN.md 4.1b): the GLUE between the library and the CLI as facts — C17 (the reader → edit → writer frame of the commands without a property of their own): join, length, pick, query, summary.
   The command functions of `/repo/cmd/gts/*.go` that have no regenerated tie of their own, as go2lean extracts them from
   the Go source on every run (`Gts/Gen/CmdFacts.lean`, generator go2lean/cmdfacts.go: normal form, one line per statement,
   locals `v0, v1, …`, parameters by type), are what the hand-written expectation `Gts/Spec/CmdTable.lean` says, line by
@@ -50,29 +50,5 @@ theorem cmd_summary : Gts.Gen.Cmd.file_summary = Gts.Spec.Cmd.file_summary ∧ G
 
 /-- the library pipeline of `gts summary` -/
 theorem cmd_summary_pipeline : Gts.Gen.Cmd.pipeline_summary = Gts.Spec.Cmd.pipeline_summary := rfl
-
-/-- the library pipeline of the multi-site command `gts delete` (its per-record step is regenerated as a function, C15): the
-frame — scanner on the delegate, writer, `WriteSeq` / `Flush` per record, `Err`, `Commit` -/
-theorem cmd_delete_pipeline : Gts.Gen.Cmd.pipeline_delete = Gts.Spec.Cmd.pipeline_delete := rfl
-
-/-- the library pipeline of the multi-site command `gts extract` (its per-record step is regenerated as a function, C15): the
-frame — scanner on the delegate, writer, `WriteSeq` / `Flush` per record, `Err`, `Commit` -/
-theorem cmd_extract_pipeline : Gts.Gen.Cmd.pipeline_extract = Gts.Spec.Cmd.pipeline_extract := rfl
-
-/-- the library pipeline of the multi-site command `gts infix` (its per-record step is regenerated as a function, C15): the
-frame — scanner on the delegate, writer, `WriteSeq` / `Flush` per record, `Err`, `Commit` -/
-theorem cmd_infix_pipeline : Gts.Gen.Cmd.pipeline_infix = Gts.Spec.Cmd.pipeline_infix := rfl
-
-/-- the library pipeline of the multi-site command `gts insert` (its per-record step is regenerated as a function, C15): the
-frame — scanner on the delegate, writer, `WriteSeq` / `Flush` per record, `Err`, `Commit` -/
-theorem cmd_insert_pipeline : Gts.Gen.Cmd.pipeline_insert = Gts.Spec.Cmd.pipeline_insert := rfl
-
-/-- the library pipeline of the multi-site command `gts rotate` (its per-record step is regenerated as a function, C15): the
-frame — scanner on the delegate, writer, `WriteSeq` / `Flush` per record, `Err`, `Commit` -/
-theorem cmd_rotate_pipeline : Gts.Gen.Cmd.pipeline_rotate = Gts.Spec.Cmd.pipeline_rotate := rfl
-
-/-- the library pipeline of the multi-site command `gts split` (its per-record step is regenerated as a function, C15): the
-frame — scanner on the delegate, writer, `WriteSeq` / `Flush` per record, `Err`, `Commit` -/
-theorem cmd_split_pipeline : Gts.Gen.Cmd.pipeline_split = Gts.Spec.Cmd.pipeline_split := rfl
 
 end Gts.Bridge.Cmd
